@@ -90,7 +90,7 @@ def main():
     # contracts this check's toy layer uses for routines named in the property's own file list: re-decided here (see common.include_dependency)
     from .common import include_dependency
     if True:
-        include_dependency(chk, tasks, 'C04', '', 'recovery computes u2*R with the variable-time GLV multiply (toy layer: contract)')
+        include_dependency(chk, tasks, 'C04', 'consts mulg split bound table lookup ladder', 'recovery computes u2*R with the variable-time GLV multiply (toy layer: contract)')
         include_dependency(chk, tasks, 'C05', 'table lookup basemult', 'recovery computes u1*G with scalarBaseMultVartime (toy layer: contract)')
         include_dependency(chk, tasks, 'C16', 'dsm', 'recovery calls DoubleScalarMultBasepointVartime (toy layer: contract)')
     from .common import include_ring_dependency
